@@ -32,6 +32,8 @@ def required_cells(tier):
         req["scen:" + s] = 20
     for hc in ("used-then-moved/receiver", "used-then-moved/returned", "moved/receiver"):
         req["pose:history/" + hc] = 30
+    req["gen:derived/plane-normals"] = 100
+    req["gen:derived/sections-of-parallel-planes"] = 100
     return req
 
 
@@ -47,6 +49,37 @@ def cases(rng, budget, widx, nworkers, tier):
             b = ("L", K.add(a[1], K.mul(a[2], rng.choice((0, 1, -2, gen.F(1, 2))))), K.mul(a[2], rng.choice((1, -1, 3, gen.F(1, 2)))))
             label = "coincident"
         yield C.maybe_hist({"a": a, "b": b, "label": label, "ls": rng.getrandbits(30)}, rng)
+        if ka == "L" and rng.random() < 0.25:
+            # operands the library derived itself: perpendiculars of two parallel planes given with differently scaled
+            # normals (Line(A, plane.n)), or the section lines of two parallel planes with a third plane.  Their direction
+            # vectors are normalised floats: exactly parallel in the geometry, equal only up to rounding in the numbers
+            n = gen.rdir(rng, 3)
+            k = rng.choice((2, 3, -1, -2, gen.F(1, 2), 5, -3))
+            A, B = gen.rpt(rng), gen.rpt(rng)
+            if rng.random() < 0.5:
+                yield {"a": ("L", A, n), "b": ("L", B, n), "label": "derived/plane-normals", "ls": 0,
+                       "derive": {"mode": "normals", "A": A, "B": B, "n": n, "k": k}}
+            else:
+                m = gen.rdir(rng, 3)
+                if K.cross(m, n) == (0, 0, 0):
+                    continue
+                Cq = gen.rpt(rng)
+                K.reset()
+                la, lb = K.inter(("PL", A, n), ("PL", Cq, m)), K.inter(("PL", B, K.mul(n, k)), ("PL", Cq, m))
+                if la is None or lb is None or la[0] != "L" or lb[0] != "L":
+                    continue
+                yield {"a": la, "b": lb, "label": "derived/sections-of-parallel-planes", "ls": 0,
+                       "derive": {"mode": "sections", "A": A, "B": B, "n": n, "k": k, "C": Cq, "m": m}}
+
+
+def _derived(G, dv):
+    P = lambda p: G.Point(*[float(c) for c in p])
+    V = lambda p: G.Vector(*[float(c) for c in p])
+    pl1, pl2 = G.Plane(P(dv["A"]), V(dv["n"])), G.Plane(P(dv["B"]), V(K.mul(dv["n"], dv["k"])))
+    if dv["mode"] == "normals":
+        return G.Line(P(dv["A"]), pl1.n), G.Line(P(dv["B"]), pl2.n)
+    q = G.Plane(P(dv["C"]), V(dv["m"]))
+    return G.intersection(pl1, q), G.intersection(pl2, q)
 
 
 def _scen(a, b):
@@ -86,7 +119,16 @@ def judge(case):
     sc = _scen(a, b)
     if sc:
         mu.cell("scen:" + sc)
-    x, y = pre or C.lift_pair(case)
+    if case.get("derive"):
+        try:
+            x, y = _derived(G, case["derive"])
+        except Exception as e:
+            mu.fail("derived-operands:raises-" + type(e).__name__, "building library-derived lines raised %r" % e)
+            return mu.result()
+        if M.kind(x) != "L" or M.kind(y) != "L":
+            return core.not_admitted("derived-operands-not-lines (C01's business)")
+    else:
+        x, y = pre or C.lift_pair(case)
     forms = [("distance(a,b)", G.distance, x, y), ("distance(b,a)", G.distance, y, x)]
     if ka in ("L", "PL"):
         forms.append(("a.distance(b)", lambda p, q: p.distance(q), x, y))
